@@ -85,25 +85,10 @@ def gen_check(drv, pid, cfg, info, seed, tier, viol_so_far):
                     break
             prev.append(vo)
     ev['gen_proofs_s'] = round(time.time() - t0, 1)
-    if failed is None:
-        txt = ' | '.join(l.rstrip() for l in out.split('\n') if l.strip())
-        names = re.findall(r'Print Assumptions\s+(\w+)', open(os.path.join(drv.COQ, cfg['gen_proofs'][-1])).read())
-        ev['print_assumptions'] = 'Print Assumptions of %s (in order %s): %s' % (cfg['gen_proofs'][-1], ', '.join(names), txt)
-        bad = [l for l in out.split('\n') if l.strip() and 'Closed under the global context' not in l]
-        if bad or not names:
-            violation(drv, pid, dict(property=pid, seed=seed, tier=tier, case='genproof', kind='proof-obligation',
-                                     theorem_or_correspondence='%s compiles but its theorems are not closed under the global context' % cfg['gen_proofs'][-1],
-                                     output=out[-3000:]), 'no-failing-input-found')
-            return 1, ev
-        return 0, ev
-    # a proof about the generated code no longer checks: which lemma, and is there a failing input?
-    m = re.search(r'File "[^"]*?([\w.]+\.v)", line (\d+), characters', out)
-    lemma = enclosing_lemma(os.path.join(drv.COQ, m.group(1)), int(m.group(2))) if m else None
-    where = '%s:%s' % (m.group(1), m.group(2)) if m else failed
-    ev['failed'] = dict(file=failed, lemma=lemma, at=where)
+    # the small-domain sweeps (generated code against model function) are evaluated on every run: they also cover
+    # translated functions about which no lemma is proved yet, and they supply the failing input when a proof breaks
     ids = {}
-    gs = os.path.join(drv.COQ, 'GenSrc.v')
-    for mm in re.finditer(r'Notation id_(\w+) := (\d+)%positive', open(gs).read()):
+    for mm in re.finditer(r'Notation id_(\w+) := (\d+)%positive', open(os.path.join(drv.COQ, 'GenSrc.v')).read()):
         ids[mm.group(2)] = mm.group(1)
     outdir = os.path.join(drv.BUILD, pid)
     sw = os.path.join(outdir, 'gensweep.v')
@@ -111,15 +96,29 @@ def gen_check(drv, pid, cfg, info, seed, tier, viol_so_far):
                         'Definition S := Eval vm_compute in sweeps_%s.\n'
                         'Definition N := Eval vm_compute in length S.\nPrint N.\n' % pid +
                         ''.join('Definition S%d := Eval vm_compute in nth_error S %d.\nPrint S%d.\n' % (k, k, k) for k in range(3)))
+    ts = time.time()
     rc, sout = drv.run(['timeout', '900', 'coqc', '-R', drv.COQ, 'Verif', sw], cwd=outdir)
+    ev['sweep_s'] = round(time.time() - ts, 1)
     n = re.search(r'N = (\d+)', sout)
-    count = int(n.group(1)) if (rc == 0 and n) else 0
+    count = int(n.group(1)) if (rc == 0 and n) else None
+    ev['sweep_disagreements'] = count
+    lemma = where = None
+    if failed is not None:
+        m = re.search(r'File "[^"]*?([\w.]+\.v)", line (\d+), characters', out)
+        lemma = enclosing_lemma(os.path.join(drv.COQ, m.group(1)), int(m.group(2))) if m else None
+        where = '%s:%s' % (m.group(1), m.group(2)) if m else failed
+        ev['failed'] = dict(file=failed, lemma=lemma, at=where)
     common = dict(property=pid, seed=seed, tier=tier, kind='generated-code',
-                  lemma_that_no_longer_checks=lemma, at=where, coqc_output=out[-2500:],
+                  lemma_that_no_longer_checks=lemma, at=where, coqc_output=out[-2500:] if failed else None,
                   functions=[e['function'] + ' ' + e['source'] for e in ev['functions']],
                   rerun='./check %s' % pid)
     nv = 0
-    if count > 0:
+    if count is None:
+        nv += 1
+        violation(drv, pid, dict(common, case='gensweep', kind='proof-obligation',
+                                 theorem_or_correspondence='the sweeps of coq/GenSweep.v (sweeps_%s) could not be evaluated' % pid, output=sout[-2000:]),
+                  'no-failing-input-found')
+    elif count > 0:
         for k in range(min(count, 3)):
             mm = re.search(r'S%d = (.*?)\n\s*: option disagreement' % k, sout, re.S)
             txt = re.sub(r'\s+', ' ', mm.group(1)) if mm else '?'
@@ -128,15 +127,25 @@ def gen_check(drv, pid, cfg, info, seed, tier, viol_so_far):
             violation(drv, pid, dict(common, case='gen%d' % k,
                                      explanation='the MiniGo term generated from the current Go source and the model function the theorems are about disagree on this input (found by the exhaustive small-domain sweep coq/GenSweep.v: sweeps_%s; %d disagreeing inputs in all). d_method = the method, d_recv = the receiver before the call, d_args = the arguments, d_model = what the model says (result, receiver afterwards), d_generated = what the generated code does' % (pid, count),
                                      failing_input=txt))
-        ev['sweep_disagreements'] = count
-    elif viol_so_far == 0:
+    if failed is None:
+        txt = ' | '.join(l.rstrip() for l in out.split('\n') if l.strip())
+        names = re.findall(r'Print Assumptions\s+(\w+)', open(os.path.join(drv.COQ, cfg['gen_proofs'][-1])).read())
+        ev['print_assumptions'] = 'Print Assumptions of %s (in order %s): %s' % (cfg['gen_proofs'][-1], ', '.join(names), txt)
+        bad = [l for l in out.split('\n') if l.strip() and 'Closed under the global context' not in l]
+        if bad or not names:
+            nv += 1
+            violation(drv, pid, dict(property=pid, seed=seed, tier=tier, case='genproof', kind='proof-obligation',
+                                     theorem_or_correspondence='%s compiles but its theorems are not closed under the global context' % cfg['gen_proofs'][-1],
+                                     output=out[-3000:]), 'no-failing-input-found')
+    elif nv == 0 and viol_so_far == 0:
+        # a proof about the generated code no longer checks and no input was found on which code and model differ
         nv = 1
         violation(drv, pid, dict(common, case='genproof',
                                  theorem_or_correspondence='the lemma %s of %s about the code generated from the current Go source no longer checks; the small-domain sweeps (sweeps_%s) and the correspondence run found no input on which generated code and model differ' % (lemma, failed, pid),
                                  sweep_output=sout[-800:]), 'no-failing-input-found')
     else:
-        nv = 1
-        print('(a proof about the generated code no longer checks as well: %s in %s)' % (lemma, where), flush=True)
+        nv += 1
+        print('(a proof about the generated code no longer checks: %s in %s)' % (lemma, where), flush=True)
     return nv, ev
 
 
